@@ -18,6 +18,7 @@
 import PS.Proofs.Solver
 import PS.Proofs.SolverRestartStats
 import PS.Proofs.SolverRestartGrammar
+import PS.Proofs.SolverRestartFuel
 import PS.Props.C11
 set_option linter.unusedSectionVars false
 namespace PS.C10
@@ -782,6 +783,17 @@ theorem C10_restart_no_restart {ev : Ev St P I V E} {spec : P → I → Outcome 
       have b1 := (base_stats (T := test k ev exs) es (initTask s.self) st dl as).2 (fun h => hcl (hclosed.mpr h))
       simp only [solve] at b1 ⊢
       rw [hfr.selfStatsPrograms, b1]; rfl
+
+/-- **C10_restart_fuel.** The fuel of the model restricts nothing: a run that ends within its fuel
+    (accepted, deadline, end of a stream, exception, or left suspended by the caller) is the same —
+    yielded programs, end, solver object, evaluator state — with any larger amount of fuel.
+    (A run that uses up every amount of fuel is a `solve` that never returns: a criterion that fires
+    before a new program is reached re-enumerates the same programs for ever.) -/
+theorem C10_restart_fuel (prm : Params En P) (T : St → P → St × Except E (Bool × Score)) (fuel k : Nat)
+    (s : RSolver P) (st : St) (en : En) (dl as : List Bool)
+    (h : (solveR prm T fuel s st en dl as).status ≠ .outOfFuel) :
+    solveR prm T (fuel + k) s st en dl as = solveR prm T fuel s st en dl as :=
+  fuel_mono k fuel (initTaskR s) st en 0 dl as h
 
 /-- **C10_restart_evaluator_state.** A run leaves the evaluator in a faithful state. -/
 theorem C10_restart_evaluator_state {ev : Ev St P I V E} {spec : P → I → Outcome V E} {Inv : St → Prop}
